@@ -7,7 +7,13 @@ letter-case; three independent renderers (Google, Numpy, Sphinx) emit the *well-
 of the documentation; a parent object (function, ``__init__`` method, class, module, property or
 none) is generated together with the structure and supplies the annotations / defaults that the
 docstring omits; every documented parser option is drawn at random and the rendering adapts
-to it (single-block Returns, unnamed values, ...).
+to it (single-block Returns, unnamed values, ...).  The function parents spell the wrappers an
+untyped Yields / Receives / Returns item is looked up through (Iterator, Generator, tuple) in every
+way Python offers to name an object of another module (WRAPPER_SPELLINGS: from-import, 'as' names,
+attribute chains, module aliases, parent-package imports; typing, collections.abc, a re-exporting
+module three packages deep; plain, quoted and postponed annotations), and CPython itself
+(exec + typing.get_type_hints / get_origin / get_args) confirms which part of the signature each
+such item documents.
 
 Oracle: an executable model of the documentation (``expect``) written independently of the
 parsers, compared field by field with the parsed sections (kinds, order, titles, names,
@@ -33,7 +39,8 @@ RULE = ("random section lists of 2..8 sections over the kinds each style support
         "items per section with/without types, descriptions of 1..4 lines with blank lines and relative indentation, optional "
         "titles, every documented identifier alias in 5 letter-cases, indentation unit 2, 3, 4 or 8, 1..2 blank lines between sections, "
         "body optionally indented as in source; parents (function / __init__ / class / module / property / none) generated with the "
-        "structure; all parser options drawn at random (2^8 Google, 2^3 Numpy, 2 Sphinx); 8% of the structures carry exactly one "
+        "structure, function parents spelling Iterator / Generator / tuple through 13 import forms x {plain, quoted, postponed} "
+        "(import paths of 1..3 dots) with the signature fallback confirmed by CPython's get_type_hints; all parser options drawn at random (2^8 Google, 2^3 Numpy, 2 Sphinx); 8% of the structures carry exactly one "
         "documented-but-suspicious construct (type field after its param, '):' inside a description, untyped attribute after a "
         "typed one, documented Numpy alias, lone Numpy name) so that the listed findings stay observable. distinct = digest of (style, options, "
         "structure); non-trivial = >=3 sections and one item with a multi-paragraph description")
@@ -41,7 +48,9 @@ LEVEL_TEXT = ("Each generated structure is rendered in the well-formed syntax of
               "generated parent, and compared with an independent model of the documentation: section kinds and order, titles, "
               "item names, annotations (docstring type, else the parent's), defaults (from the parent), descriptions (exact for "
               "Google, modulo trailing newlines for Numpy, modulo whitespace runs for Sphinx), example blocks; plus a per-line "
-              "unique-token conservation check over the JSONEncoder form of the result.")
+              "unique-token conservation check over the JSONEncoder form of the result. Which part of the parent's return annotation "
+              "an untyped Yields / Receives / Returns item documents is decided by CPython (the parent is executed and its "
+              "get_type_hints are taken apart with get_origin / get_args), independently of how the module imports the names.")
 LEVEL_NOTE = ("trusted: the three renderers and the model of docs/reference/docstrings.md in this file; corners the documentation "
               "leaves open are excluded (trailing newline of Numpy descriptions, leading newline of Google descriptions that start "
               "on a new line, Returns fallback from Generator annotations, annotations of properties); sampled, not exhaustive")
@@ -50,7 +59,8 @@ REQUIRED_COUNTERS = ["structures_parsed", "sections_compared", "items_compared",
                      "annotations_from_parent_compared", "defaults_from_parent_compared", "descriptions_compared",
                      "multi_paragraph_descriptions_compared", "titles_compared", "tokens_conserved", "example_blocks_compared",
                      "admonitions_compared", "order_checked_google", "order_checked_numpy", "sphinx_structures_compared",
-                     "json_roundtrips"]
+                     "json_roundtrips", "returns_like_annotations_from_parent_compared", "annotations_through_wrapper_compared",
+                     "annotations_through_deep_import_path_wrapper_compared", "cpython_signature_parts_confirmed"]
 EXHAUSTIVE = {"quick": False, "thorough": False}
 ASSUMPTIONS = ["'well-formed' means the syntax shown in docs/reference/docstrings.md (plus the Sphinx field-list syntax the docs link to)",
                "types are drawn from a pool of expressions whose str() is canonical; descriptions avoid section syntax of their own"]
@@ -85,6 +95,42 @@ FUNC_NAMES = ["run", "stop", "compute", "load_all", "_helper"]
 CLASS_NAMES = ["Runner", "Config", "Node", "_Base"]
 MODULE_NAMES = ["utils", "core", "cli", "_internal"]
 SIGS = ["()", "(a)", "(a, b=1)", "(*args, **kwargs)", "(self, x)"]
+
+# How the parent module spells the wrappers the parsers have to see through when a Yields / Receives / Returns item omits
+# its type (Iterator[Y], Generator[Y, S, R], tuple[...]): (id, import lines, Iterator, Generator, Tuple, module the names live in).
+# Every documented way of naming an object of another module: from-import, from-import with 'as', module import + attribute
+# chain, module import with 'as', parent-package import; from the deprecated typing aliases, from their real home
+# collections.abc, and through a re-exporting compatibility module several packages deep (CPython sees the same objects:
+# see cpython_signature_parts; the static analysis only sees the import path).
+WRAPPER_SPELLINGS = [
+    ("typing-from", "from typing import Generator, Iterator, Tuple", "Iterator", "Generator", "Tuple", "typing"),
+    ("typing-from-as", "from typing import Generator as Gen, Iterator as It, Tuple as Tup", "It", "Gen", "Tup", "typing"),
+    ("typing-attr", "import typing", "typing.Iterator", "typing.Generator", "typing.Tuple", "typing"),
+    ("typing-as", "import typing as t", "t.Iterator", "t.Generator", "t.Tuple", "typing"),
+    ("abc-from", "from collections.abc import Generator, Iterator", "Iterator", "Generator", None, "collections.abc"),
+    ("abc-from-as", "from collections.abc import Generator as Gen, Iterator as It", "It", "Gen", None, "collections.abc"),
+    ("abc-attr", "import collections.abc", "collections.abc.Iterator", "collections.abc.Generator", None, "collections.abc"),
+    ("abc-as", "import collections.abc as cabc", "cabc.Iterator", "cabc.Generator", None, "collections.abc"),
+    ("abc-parent-package", "from collections import abc", "abc.Iterator", "abc.Generator", None, "collections.abc"),
+    ("compat-from", "from vfcompat.deep.types import Generator, Iterator, Tuple", "Iterator", "Generator", "Tuple", "vfcompat.deep.types"),
+    ("compat-attr", "import vfcompat.deep.types", "vfcompat.deep.types.Iterator", "vfcompat.deep.types.Generator",
+     "vfcompat.deep.types.Tuple", "vfcompat.deep.types"),
+    ("compat-as", "import vfcompat.deep.types as vt", "vt.Iterator", "vt.Generator", "vt.Tuple", "vfcompat.deep.types"),
+    ("compat-parent-package", "from vfcompat.deep import types as vtypes", "vtypes.Iterator", "vtypes.Generator", "vtypes.Tuple",
+     "vfcompat.deep.types"),
+]
+LEGACY_HEADER = "from typing import Callable, Generator, Iterator, Optional\n"
+
+
+def pick_spelling(rng: random.Random) -> dict:
+    sid, imports, it, gen, tup, module = rng.choice(WRAPPER_SPELLINGS)
+    # the builtin tuple needs no import; typing.Tuple (any spelling of it) is the other documented way to write it
+    use_tuple_alias = tup is not None and rng.random() < 0.5
+    quoted = rng.random() < 0.1                       # the whole return annotation written as a string (forward reference)
+    future = (not quoted) and rng.random() < 0.1      # postponed evaluation (PEP 563)
+    return {"id": sid, "imports": imports, "iterator": it, "generator": gen, "tuple": tup if use_tuple_alias else "tuple",
+            "module": module, "tuple_module": module if use_tuple_alias else "builtins", "quoted": quoted, "future": future}
+
 
 GOOGLE_IDENTS = {
     "parameters": ["Parameters", "Args", "Arguments", "Params"],
@@ -343,7 +389,9 @@ def build_parent(rng: random.Random, struct: dict) -> None:  # noqa: C901, PLR09
             for it in sec["items"]:
                 if it["type"] is None and not (pkind == "none" or (pkind in ("function", "init") and single)):
                     it["type"] = rng.choice(TYPES)
-    if pkind in ("function", "init"):
+    spell = pick_spelling(rng) if pkind in ("function", "init") else None
+    via: dict[str, list[str]] = {}
+    if spell:
         want = {}
         for sec in sections:
             if sec["kind"] in RETURNS_LIKE and any(it["type"] is None for it in sec["items"]):
@@ -355,31 +403,41 @@ def build_parent(rng: random.Random, struct: dict) -> None:  # noqa: C901, PLR09
                     for it in sec["items"]:
                         it["type"] = it["type"] or rng.choice(TYPES)
             del want["returns"]
+        it_name, gen_name, tup_name = spell["iterator"], spell["generator"], spell["tuple"]
+        tup_path = f"{spell['tuple_module']}.{'tuple' if tup_name == 'tuple' else 'Tuple'}"
         elems = {k: [rng.choice(SIMPLE_TYPES) for _ in range(n)] for k, n in want.items()}
         for k, n in want.items():
             # a *single* undocumented-type item whose signature type is itself a tuple: the item gets the whole tuple
             # (Google only: its docs-backed rule is "one item -> the whole annotation"; Numpy always indexes tuple elements
             # and its documentation does not say what a single item of a tuple-returning function gets)
             if n == 1 and struct["style"] == "google" and rng.random() < 0.35:
-                elems[k] = [rng.choice(["tuple[int, str]", "tuple[str, bool, int]"])]
+                elems[k] = [rng.choice([f"{tup_name}[int, str]", f"{tup_name}[str, bool, int]"])]
 
         def compose(ts: list[str]) -> str:
-            return ts[0] if len(ts) == 1 else f"tuple[{', '.join(ts)}]"
+            return ts[0] if len(ts) == 1 else f"{tup_name}[{', '.join(ts)}]"
 
+        # via[kind]: import paths of the wrappers the parser has to see through to reach the items' types (known by construction)
         if "receives" in want or ("yields" in want and rng.random() < 0.5):
             y = compose(elems["yields"]) if "yields" in want else rng.choice(SIMPLE_TYPES)
             s = compose(elems["receives"]) if "receives" in want else rng.choice(["None", "str"])
-            ret = f"Generator[{y}, {s}, {rng.choice(['None', 'int'])}]"
+            ret = f"{gen_name}[{y}, {s}, {rng.choice(['None', 'int'])}]"
+            for k in want:
+                via[k] = [f"{spell['module']}.Generator"]
         elif "yields" in want:
-            ret = f"Iterator[{compose(elems['yields'])}]"
+            ret = f"{it_name}[{compose(elems['yields'])}]"
+            via["yields"] = [f"{spell['module']}.Iterator"]
         elif "returns" in want:
             ret = compose(elems["returns"])
+            via["returns"] = []
         else:
-            ret = rng.choice([None, None, "int", "None", "tuple[int, str]", "Iterator[int]"]) if pkind == "function" else "None"
-            if any(k in RETURNS_LIKE for k in kinds) and ret and ret.startswith(("tuple", "Iterator")):
+            wrapped = [f"{tup_name}[int, str]", f"{it_name}[int]"]
+            ret = rng.choice([None, None, "int", "None", *wrapped]) if pkind == "function" else "None"
+            if any(k in RETURNS_LIKE for k in kinds) and ret in wrapped:
                 ret = "int"
-        for k in want:
+        for k, n in want.items():
             rl[k] = elems[k]
+            if n > 1:
+                via[k].append(tup_path)
     else:
         ret = None
     # parameters
@@ -418,8 +476,11 @@ def build_parent(rng: random.Random, struct: dict) -> None:  # noqa: C901, PLR09
         for n, p in sig.items():
             if p["stars"] == stars:
                 parts.append(stars + n + (f": {p['annotation']}" if p["annotation"] else ""))
-    header = "from typing import Callable, Generator, Iterator, Optional\n"
-    arrow = f" -> {ret}" if ret else ""
+    if spell:
+        header = ("from __future__ import annotations\n" if spell["future"] else "") + "from typing import Callable, Optional\n" + spell["imports"] + "\n"
+        arrow = f" -> {ret!r}" if (ret and spell["quoted"]) else (f" -> {ret}" if ret else "")
+    else:
+        header, arrow = LEGACY_HEADER, ""
     attr_lines = [f"{n}: {a} = 0" if a else f"{n} = 0" for n, a in attrs.items()]
     if pkind == "function":
         source, path = header + f"def func({', '.join(parts)}){arrow}: ...\n", "func"
@@ -434,9 +495,10 @@ def build_parent(rng: random.Random, struct: dict) -> None:  # noqa: C901, PLR09
         source, path = header + "class K:\n    @property\n    def prop(self) -> bytes: ...\n", "K.prop"
     else:
         source, path = None, None
-    struct["parent"] = {"kind": pkind, "source": source, "path": path}
+    struct["parent"] = {"kind": pkind, "source": source, "path": path,
+                        "spelling": {k: spell[k] for k in ("id", "quoted", "future")} if spell else None}
     struct["fallback"] = {"params": {n: {"annotation": p["annotation"], "default": p["default"]} for n, p in sig.items()},
-                          "attrs": attrs, "returns_like": rl, "returns_annotation": ret}
+                          "attrs": attrs, "returns_like": rl, "returns_like_via": via, "returns_annotation": ret}
     if struct["style"] == "google":
         for it in google_attr_leak_items(struct):
             it["type"] = rng.choice(TYPES)          # D_clean: see the known finding C13-google-attribute-annotation-leak
@@ -569,7 +631,7 @@ def gen_struct_sphinx(rng: random.Random, hostile: str | None = None) -> dict:  
         if p["default"] is not None:
             txt += (" = " if p["annotation"] else "=") + p["default"]
         parts.append(txt)
-    header = "from typing import Callable, Generator, Iterator, Optional\n"
+    header = LEGACY_HEADER
     attr_lines = [f"{n}: {a} = 0" if a else f"{n} = 0" for n, a in attrs.items()]
     if pkind == "function":
         source, path = header + f"def func({', '.join(parts)}){f' -> {ret}' if ret else ''}: ...\n", "func"
@@ -846,6 +908,7 @@ def expect(struct: dict) -> list[dict]:  # noqa: C901, PLR0912, PLR0915
                     e["annotation"] = it["type"] or (elems[i] if elems else None)
                     if not it["type"] and elems:
                         e["src"] = "parent"
+                        e["via"] = (fb.get("returns_like_via") or {}).get(kind)
                 if kind in ("functions", "classes", "modules") and style == "numpy":
                     e["strip"] = True
                 items.append(e)
@@ -970,6 +1033,13 @@ def compare(style: str, exp: list[dict], obs: list[dict], rec) -> list[dict]:  #
                     rec.count("annotations_from_docstring_compared")
                 elif ei.get("src") == "parent":
                     rec.count("annotations_from_parent_compared")
+                    if kind in RETURNS_LIKE:
+                        rec.count("returns_like_annotations_from_parent_compared")
+                        paths = ei.get("via") or []
+                        if paths:
+                            rec.count("annotations_through_wrapper_compared")       # Iterator / Generator / tuple seen through
+                        if any(p.count(".") >= 2 for p in paths):  # noqa: PLR2004
+                            rec.count("annotations_through_deep_import_path_wrapper_compared")   # e.g. collections.abc.Iterator
                 if kind in ("parameters", "other parameters"):
                     if ei.get("value_src") == "parent":
                         rec.count("defaults_from_parent_compared")
@@ -1155,6 +1225,66 @@ def nontrivial(struct: dict) -> bool:
     return nsec >= 3 and any(multi_paragraph(d) for d in descs)  # noqa: PLR2004
 
 
+def _install_compat_modules() -> None:
+    """The re-exporting compatibility package some spellings import from (real modules as far as CPython is concerned)."""
+    import collections.abc
+    import sys
+    import types
+    import typing
+
+    if "vfcompat.deep.types" in sys.modules:
+        return
+    top, deep, leaf = types.ModuleType("vfcompat"), types.ModuleType("vfcompat.deep"), types.ModuleType("vfcompat.deep.types")
+    top.__path__, deep.__path__ = [], []
+    top.deep, deep.types = deep, leaf
+    leaf.Iterator, leaf.Generator, leaf.Tuple = collections.abc.Iterator, collections.abc.Generator, typing.Tuple
+    sys.modules.update({"vfcompat": top, "vfcompat.deep": deep, "vfcompat.deep.types": leaf})
+
+
+def cpython_signature_parts(struct: dict) -> tuple[bool, str]:
+    """Ask CPython which type each untyped Yields / Receives / Returns item corresponds to in the parent's signature.
+
+    The parent's source is executed, typing.get_type_hints resolves the return annotation (string and postponed annotations
+    included), typing.get_origin / get_args take it apart: Generator[Y, S, R] -> yields Y, receives S, returns R;
+    Iterator[Y] -> yields Y; several items of one section <-> the elements of a tuple. The resulting objects must equal the
+    evaluation of the strings the model expects. Returns (confirmed, detail).
+    """
+    import collections.abc
+    import types
+    import typing
+
+    _install_compat_modules()
+    parent, fb = struct["parent"], struct["fallback"]
+    ns: dict = {"__name__": "vfc13", "Integer": type("Integer", (), {}),
+                "a": types.SimpleNamespace(b=types.SimpleNamespace(C=type("C", (), {}), CustomError=type("CustomError", (Exception,), {})))}
+    exec(compile(parent["source"], "<vfc13 parent>", "exec"), ns)  # noqa: S102
+    func = ns["func"] if parent["path"] == "func" else ns["K"].__init__
+    hint = typing.get_type_hints(func).get("return")
+    origin, args = typing.get_origin(hint), typing.get_args(hint)
+    if origin is collections.abc.Generator:
+        parts = dict(zip(("yields", "receives", "returns"), args))
+    elif origin is collections.abc.Iterator:
+        parts = {"yields": args[0]}
+    else:
+        parts = {"returns": hint}
+    for kind, elems in fb["returns_like"].items():
+        if elems is None:
+            continue
+        if kind not in parts:
+            return False, f"CPython: {hint!r} has no {kind} part"
+        part = parts[kind]
+        if len(elems) > 1:
+            if typing.get_origin(part) is not tuple:
+                return False, f"CPython: the {kind} part {part!r} is not a tuple"
+            objs = list(typing.get_args(part))
+        else:
+            objs = [part]
+        want = [eval(e, ns) for e in elems]  # noqa: S307
+        if objs != want:
+            return False, f"CPython: {kind} items correspond to {objs!r}, the model expects {want!r}"
+    return True, ""
+
+
 _PARENTS: dict[str, object] = {}
 
 
@@ -1196,6 +1326,19 @@ def run_case(rec, struct: dict) -> None:  # noqa: ANN001, C901, PLR0912
     except Exception as exc:  # noqa: BLE001
         rec.fail_exc(case, f"{style} parser raised on a well-formed docstring", exc, nontrivial=nt, tags=tags, tried=ALL_FINDINGS)
         return
+    if struct["parent"].get("spelling") and any(struct["fallback"]["returns_like"].values()):
+        # independent ground truth for "which part of the signature does an untyped item document": CPython itself
+        try:
+            confirmed, detail = cpython_signature_parts(struct)
+        except Exception as exc:  # noqa: BLE001
+            confirmed, detail = False, f"CPython could not evaluate the generated parent: {type(exc).__name__}: {exc}"
+        if not confirmed:
+            rec.fail(case, "harness: the model of the signature fallback disagrees with CPython", observed=detail,
+                     expected="typing.get_type_hints / get_origin / get_args of the parent agree with the model", nontrivial=nt, tags=tags)
+            return
+        rec.count("cpython_signature_parts_confirmed")
+        rec.add_to_set("wrapper_spellings_compared", struct["parent"]["spelling"]["id"]
+                       + ("+quoted" if struct["parent"]["spelling"]["quoted"] else "") + ("+future" if struct["parent"]["spelling"]["future"] else ""))
     exp = expect(struct)
     mism = compare(style, exp, obs, rec)
     if not mism:
